@@ -56,6 +56,8 @@ type RedisScenario struct {
 	Conns    []ConnScript   `json:"conns"`
 	Faults   []Fault        `json:"faults,omitempty"`
 	HorizonS int            `json:"horizon_s,omitempty"`
+	// MigStepMs: simulated milliseconds between two steps of a slot migration (0: as fast as the scheduler lets them)
+	MigStepMs int `json:"mig_step_ms,omitempty"`
 	EndStop  bool           `json:"end_stop,omitempty"`  // end the history with Stop (C20)
 	EndClose bool           `json:"end_close,omitempty"` // end the history with every client closing its connection
 	// Down: nodes that refuse ("refuse") or black-hole ("blackhole") connections from the start
@@ -165,7 +167,7 @@ func (w *redisWorld) startProbes() {
 	// probes are the "after healing" phase: they never start while a node is down, silent or unreachable (a
 	// shrunk scenario may have lost the fault that heals it; such a scenario simply has no probe phase)
 	for _, n := range w.env.Cluster.Nodes {
-		if !n.Up || n.Silent {
+		if !n.Up || n.Silent || n.Stalled {
 			return
 		}
 	}
@@ -381,7 +383,7 @@ func (w *redisWorld) fireFaults() {
 		if !due && w.sc.IdleFaults && w.firstSend >= 0 && w.clientsSettled() && w.env.Quiet() {
 			due = true
 		}
-		if !due && f.Kind == "unstall" && w.firstSend >= 0 && len(parked) == 0 && len(w.rt.Events()) == 0 {
+		if !due && f.Kind == "unstall" && f.AtMs == 0 && w.firstSend >= 0 && len(parked) == 0 && len(w.rt.Events()) == 0 {
 			due = true // everything waits for the stalled node: it answers again now
 		}
 		if !due {
@@ -600,7 +602,12 @@ func (w *redisWorld) migrate(slot, src, dst, phase int) {
 	w.migSeq++
 	w.migActive++
 	label := fmt.Sprintf("mig:%05d#%04d", slot, w.migSeq)
-	w.rt.AddEvent(label, func() {
+	at := time.Time{}
+	if w.sc.MigStepMs > 0 {
+		// a migration that takes its time: every step (set importing/migrating, one key, finalise) that long after the last
+		at = time.Now().Add(time.Duration(w.sc.MigStepMs) * time.Millisecond)
+	}
+	w.rt.AddEventAt(at, label, func() {
 		w.migActive--
 		w.lastFault = time.Now()
 		// a fail-over may have replaced an endpoint of the migration meanwhile
